@@ -2,7 +2,7 @@
    and its lifting to quantified statements. *)
 From Coq Require Import String Ascii.
 From PS Require Import Base.Bytes Base.Result Model.Converter Model.CorrUtil Model.Command.
-From PS Require Import Spec.SAM Spec.T10Opcodes Gen.Opcodes Gen.Misc.
+From PS Require Import Spec.SAM Spec.T10Opcodes Gen.Opcodes Gen.Misc Model.InitCdb.
 Open Scope string_scope.
 Open Scope N_scope.
 
@@ -69,7 +69,6 @@ Definition len_eqb (a : result nat) (b : option nat) : bool :=
   | _, _ => false
   end.
 
-Definition init_cdb (v : N) : result nat := init_cdb_len init_cdb_ranges init_cdb_else_raises v.
 
 Definition below (n : nat) : list N := map N.of_nat (seq 0 n).
 Definition len_ok : bool := forallb (fun v => len_eqb (init_cdb v) (cdb_len_of_opcode v)) (below 256).
